@@ -33,7 +33,7 @@ MANIFEST = {
 }
 
 REQUIRED = ["KV.C13.z_incremental", "KV.C13.normalised", "KV.C13.formula", "KV.C13.ngram_union",
-            "KV.C13.single_identity", "KV.C13.equal_orders_not_stuck", "KV.C13.abort_witness",
+            "KV.C13.single_identity", "KV.C13.spec_eq_tool", "KV.C13.formula_spec", "KV.C13.equal_orders_not_stuck", "KV.C13.abort_witness",
             "KV.C13.termination_fails_mixed_orders", "KV.C13.formula_real", "KV.C13.normalised_real",
             "KV.C13.interp_nonpos", "KV.C13.z_incremental_real"]
 
@@ -154,6 +154,7 @@ class CaseResult:
         self.what = ""
         self.detail = {}
         self.maxerr = 0.0
+        self.no_input = False
 
 
 def build_models(case, lmplz, wd):
@@ -243,7 +244,7 @@ def run_case(ctx, case, bins, dexe, wd, cap_ctx):
     S, sb = case["setting"]
     if S:
         cmd += ["-S", S, "--sort_block", sb]
-    rc, out, err = sh(cmd, timeout=180)
+    rc, out, err = sh(cmd, timeout=90)
     r.detail["cmd"] = " ".join(cmd)
     r.detail["rc"] = rc
     if rc != 0:
@@ -280,26 +281,6 @@ def run_case(ctx, case, bins, dexe, wd, cap_ctx):
         r.status, r.what = "violation", "model's union vocabulary differs from the output unigrams"
         return r
     worst = 0.0
-    mod_entries = {}
-    for k in range(1, maxo + 1):
-        line = o2[nb + 2 + k]
-        for rec in (line.split("\t") if line else []):
-            f = rec.split(" ")
-            mod_entries[tuple(f[:k])] = (G.f64_from_bits(f[k]), G.f64_from_bits(f[k + 1]))
-    if set(mod_entries.keys()) != union:
-        r.status, r.what = "violation", "model's union n-gram set differs from the union of the inputs"
-        return r
-    for g, (p, b) in grams.items():
-        mp, mb = mod_entries[g]
-        if g == ("<s>",):
-            mp = p     # the <s> unigram probability is outside the property (excluded word)
-        for a, bb, which in ((p, mp, "prob"), (b, mb, "backoff")):
-            d = abs(a - bb)
-            if not (d <= TOL):
-                r.status = "violation"
-                r.what = "ARPA %s of %r: tool %r, model %r" % (which, " ".join(g), a, bb)
-                return r
-            worst = max(worst, d)
     # ---- defining formula over contexts x union vocabulary
     vocab_nobos = [w for w in uv if w != "<s>"]
     ctxs, full = contexts_for(ctx.rng, uv, union, maxo, cap_ctx)
@@ -341,6 +322,29 @@ def run_case(ctx, case, bins, dexe, wd, cap_ctx):
         if not abs(tot - 1.0) <= 1e-4:
             r.status, r.what = "violation", "context %r of the output sums to %r" % (" ".join(c), tot)
             return r
+    # ---- entry-by-entry correspondence with the model's output table (after the property oracle)
+    mod_entries = {}
+    for k in range(1, maxo + 1):
+        line = o2[nb + 2 + k]
+        for rec in (line.split("\t") if line else []):
+            f = rec.split(" ")
+            mod_entries[tuple(f[:k])] = (G.f64_from_bits(f[k]), G.f64_from_bits(f[k + 1]))
+    if set(mod_entries.keys()) != union:
+        r.status, r.what = "violation", "model's union n-gram set differs from the union of the inputs"
+        return r
+    for g, (p, b) in grams.items():
+        mp, mb = mod_entries[g]
+        if g == ("<s>",):
+            mp = p     # the <s> unigram probability is outside the property (excluded word)
+        for a, bb, which in ((p, mp, "prob"), (b, mb, "backoff")):
+            d = abs(a - bb)
+            if not (d <= TOL):
+                r.status = "violation"
+                r.what = ("correspondence: ARPA %s of %r: tool %r, model %r (the defining formula held on all %d evaluated "
+                          "pairs)" % (which, " ".join(g), a, bb, npairs))
+                r.no_input = True
+                return r
+            worst = max(worst, d)
     # ---- single model, weight one: the input is reproduced
     if len(models) == 1 and case["weights"] == [1.0]:
         for g, (p, b) in comp_grams[0].items():
@@ -363,7 +367,12 @@ def run_case(ctx, case, bins, dexe, wd, cap_ctx):
 # ------------------------------------------------------------------------------------ shrinking
 def shrink_case(ctx, case, bins, dexe, wd, cap_ctx, status, budget=40):
     """ddmin over the sentences of each corpus, keeping the failure class."""
+    import time
+    t_end = time.time() + 150
+
     def fails(c):
+        if time.time() > t_end:
+            return False
         rr = run_case(ctx, c, bins, dexe, wd, cap_ctx)
         return rr.status == status
     cur = dict(case)
@@ -432,7 +441,7 @@ def handle(ctx, case, r, bins, dexe, wd, cap_ctx):
         replay = {"stream": "interpolate", "case": case_json(small), "detail": rs.detail, "what": rs.what,
                   "unshrunk_case": case_json(case)}
         r = rs
-    ctx.violation(r.what, replay)
+    ctx.violation(r.what, replay, no_input=r.no_input)
     return True
 
 
